@@ -152,7 +152,7 @@ def conditions(tier):
                                                                          ('pc', '?%')] if pol != 'keep' else []))]
     for rs, sc, pol, tag, sk in wild:
         i = sk.index('?')
-        for lo, hi in parts(rs, 4):
+        for lo, hi in parts(rs, 8 if quick else 4):
             pre = ['len(t) == %d' % len(sk)] + ['t[%d] == chr(%d)' % (j, ord(ch)) for j, ch in enumerate(sk) if ch != '?'] + \
                 ['%d <= ord(t[%d]) < %d' % (lo, i, hi)]
             conds.append(Cond('wild_%s_%s_%s_%s_%x' % (rs.replace('-', ''), sc.replace('-', ''), pol, tag, lo), 't: str',
